@@ -2,6 +2,7 @@
 From Coq Require Import List NArith ZArith Bool.
 From PyD Require Import Base.Str Base.PySlice Model.Repp Proofs.ReppP.
 From PyD Require Import Proofs.ReppGroupP.
+From PyD Require Model.YY Proofs.YYP.
 Import ListNotations.
 
 (* every step of every program has one map entry per output position plus
@@ -69,3 +70,31 @@ Theorem C14_group_provenance : forall s ms tr un st,
     nth_error (st_emap st) (S j) = Some (Z.of_nat o - Z.of_nat j)%Z.
 Proof. exact rule_group_provenance. Qed.
 Print Assumptions C14_group_provenance.
+
+(* the token lattice survives YY serialisation and parsing unchanged: for every
+   list of tokens with at least one path and one lexical rule, lexical rules free
+   of white space and a link other than the unset <-1:-1> - whatever the forms
+   and surface strings contain (quotes, backslashes, commas, parentheses, white
+   space) *)
+Theorem C14_yy_roundtrip : forall toks : list YY.yytok,
+  Forall YYP.wf_tok toks -> YY.parse_lattice (YY.print_lattice toks) = YY.YOk toks.
+Proof. exact YYP.parse_print_lattice. Qed.
+Print Assumptions C14_yy_roundtrip.
+
+(* in particular every lattice the tokenizer builds (identifier i from vertex i
+   to i+1, a character span inside the text, path 1, rule null), for any forms *)
+Theorem C14_yy_repp_lattice : forall l : list (Z * Z * Z * str),
+  Forall (fun x => (0 <= snd (fst (fst x)))%Z) l ->
+  YY.parse_lattice (YY.print_lattice (map YYP.mk_repp l)) = YY.YOk (map YYP.mk_repp l).
+Proof. exact YYP.repp_lattice_roundtrip. Qed.
+Print Assumptions C14_yy_repp_lattice.
+
+(* the premises are satisfiable: a lattice with a form made of a quote, two letters,
+   a backslash and a quote *)
+Theorem C14_yy_nonvacuous :
+  let t := YYP.repp_tok 1 4 8 [34; 104; 105; 92; 34]%N in
+  YYP.wf_tok t /\
+  YY.parse_lattice (YY.print_lattice [YYP.repp_tok 0 0 3 [115; 97; 121]%N; t])
+  = YY.YOk [YYP.repp_tok 0 0 3 [115; 97; 121]%N; t].
+Proof. exact YYP.lattice_with_quotes. Qed.
+Print Assumptions C14_yy_nonvacuous.
